@@ -18,7 +18,7 @@ CICADA = os.path.join(hsupport.VERIF, 'build/bin/debug/cicada')
 BUDGET = {'quick': 420, 'thorough': 3000}
 BOUNDS = {'quick': dict(max_args=2, max_chars=3, pos_chars=2), 'thorough': dict(max_args=3, max_chars=4, pos_chars=3)}
 ASSUMPTIONS = [
-    'bounded: argument lists of <= max_args arguments with <= max_chars symbolic characters in total (see coverage.bounds); longer texts and more arguments are outside the claim',
+    'bounded: argument lists of <= max_args arguments with <= max_chars symbolic characters in total (see coverage.bounds; in the quick tier two-argument lines carry <= 2 symbolic characters); longer texts and more arguments are outside the claim',
     'symbolic characters range over all Unicode scalar values except NUL and newline, minus the characters the quoting style excludes',
     'stub std::env::var: HOME and PATH set, every other name unset; libc::getpid arbitrary',
     'stub glob::glob: returns one path with an arbitrary one-character name (so any globbing of quoted text changes argv)',
@@ -32,6 +32,7 @@ def instances(tier, seed):
     out = []
     for styles, lens in lg.shapes(b['max_args'], b['max_chars']):
         total = sum(lens)
+        if tier == 'quick' and len(styles) >= 2 and total > 2: continue      # quick: 3 symbolic characters only for single-argument lines
         for pos in lg.POSITIONS:
             if pos != 'end' and total > b['pos_chars']: continue
             if pos == 'or' and total > 1: continue
@@ -63,6 +64,12 @@ def install_stubs(I):
             elif hlib.truthy(I, ch_eq(c, 47)): kinds.append('/')
             else: kinds.append('c')
         if kinds and kinds[0] == '/': return []      # absolute pattern: answer "no such file" (always possible)
+        # a `/` after a wildcard asks for directories; what the glob crate returns for those (trailing slash or not) is
+        # not modelled: answer "no such directory" (always possible)
+        seen_wild = False
+        for k_ in kinds:
+            if k_ in '*?': seen_wild = True
+            elif k_ == '/' and seen_wild: return []
         # glob::Pattern::new errors: `***`, `**` not forming a whole component, unclosed `[`
         i = 0; n_ = len(kinds)
         while i < n_:
